@@ -35,6 +35,17 @@ func init() {
 		take("C11", func(id string) bool { return strings.HasPrefix(id, "C11/conc/") })
 		take("C12", func(id string) bool { return strings.HasPrefix(id, "C12/conc/") })
 		take("C17", func(id string) bool { return strings.Contains(id, "ToChannel") || strings.Contains(id, "FromChannel") })
+		// time-driven operators with a goroutine of their own (ticker, timers), including their unsubscribe
+		// and cancellation cases: one duration each
+		take("C16", func(id string) bool {
+			for _, op := range []string{"C16/BufferWithTimeOrCount(1,1.0u)", "C16/BufferWithTime(1.0u)", "C16/SampleTime(1.0u)", "C16/Delay(1.0u)", "C16/Timeout(1.0u)", "C16/Interval(1.0u)"} {
+				if id == op {
+					return true
+				}
+			}
+			return false
+		})
+		take("C09", func(id string) bool { return strings.HasPrefix(id, "C09/item-context/") })
 		return scns
 	}
 }
